@@ -37,7 +37,7 @@ structure Tbl where
   sks : List (Nat × Entry) := []
 
 def isSketchCmd (c : String) : Bool :=
-  c ∈ ["M", "mv", "ml", "mi", "K", "add", "q", "qs", "obs", "merge", "copy", "clear", "rew", "encchk", "dec", "decm"]
+  c ∈ ["M", "mv", "ml", "mi", "K", "add", "q", "qs", "obs", "merge", "copy", "clear", "rew", "encchk", "dec", "decm", "same"]
 
 def parseMKind : String → Option MKind
   | "log" => some .log
@@ -252,6 +252,19 @@ def run (t : Tbl) (cmd : String) (args : List String) : Tbl × String :=
         | .plain s => applyRes t h e (liftP (s.reweight w))
         | .exact x => applyRes t h e (liftX (x.reweight w))
     | none => (t, "bad-op")
+  | "same", [h1, h2] =>
+    withSk t h1 fun _ e1 =>
+      match (parseNat h2).bind (get? t.sks) with
+      | none => (t, "bad-handle")
+      | some e2 =>
+        if e2.poisoned then (t, "poisoned") else
+        let qs : List F64 := (List.range 9).map (fun (i : Nat) => F64.fin ((i : Rat) / 8))
+        let qv (e : Entry) : List String :=
+          let env := envOf t e
+          qs.map (fun q => match e.sk with
+            | .plain s => showRes (s.quantile env q)
+            | .exact x => showRes (x.quantile env q))
+        if obs t e1 false == obs t e2 false && qv e1 == qv e2 then (t, "same") else (t, "DIFF")
   | "encchk", [h, om, bytes] =>
     match parseBytes bytes with
     | some bs => withSk t h fun _ e => (t, encChk e (om == "1") bs)
